@@ -1,8 +1,15 @@
 VARIANTS = {
-    "des": dict(crate="des", common_mods=["uf"]),
-    "des+zeroize": dict(crate="des", features=["zeroize"], common_mods=["uf"]),
+    "des": dict(crate="des", common_mods=["uf", "generic"]),
+    "des+zeroize": dict(crate="des", features=["zeroize"], common_mods=["uf", "generic"]),
 }
 PLAN = {
+    "C01": [("des", ["des/c05.rs"])],
+    "C05": [("des", ["des/c05.rs"])],
     "C13": [("des", ["des/c13.rs"])],
+    "C19": [("des", ["des/xcut.rs"])],
+    "C16": [("des+zeroize", ["des/xcut.rs"])],
+    "C15": [("des", ["des/xcut.rs"])],
+    "C20": [("des", ["des/xcut.rs", "des/c05.rs"])],
+    "C04": [("des", ["des/xcut.rs"])],
 }
 FIX_COMMITS = ["a3e134a"]
